@@ -4,6 +4,7 @@
   tables regenerated from /repo in SV/Generated/Engine.lean.
 -/
 import SV.Proofs.Engine
+import SV.Proofs.Stateful
 import SV.Model.Plan
 import SV.Generated.Engine
 
@@ -213,5 +214,40 @@ example : ∃ s, fireAll .repaired (init [⟨1, 1, 0, .failure, false⟩, ⟨2, 
       s.c.pc = .done ∧ s.c.ctl.hasToStop = false ∧ Ev.scenFinished 1 .failure ∈ s.c.out ∧
       s.c.out.getLast? = some (.phaseFinished .failure false) := by
   decide
+
+/-! ### the stateful phase -/
+
+open SV.Model.Stateful in
+/-- The stateful consumer yields every event it obtains, in order, then (on Ctrl-C) `Interrupted`, then exactly one
+    PhaseFinished; nothing is dropped or reordered. -/
+theorem stateful_consumer_delivers (gets : List SEv) (ki : Bool) :
+    ∃ st ntt, (consume gets ki).out = gets ++ (if ki then [.interrupted] else []) ++ [.phaseFinished st ntt] := by
+  unfold consume close interrupt
+  cases ki <;> simp [SV.Proofs.Stateful.foldl_got_out]
+
+open SV.Model.Stateful in
+/-- The stateful phase status dominates every non-skipped suite status: a failed (check failure, flaky) or errored
+    (internal error ⇒ NonFatalError + SuiteFinished(ERROR)) suite makes the phase FAILURE / ERROR. -/
+theorem stateful_status_dominates (gets : List SEv) (k : Nat) (st : Status)
+    (hm : SEv.suiteFinished k st ∈ gets) (hsk : st ≠ .skip) :
+    ∃ x ntt, (consume gets false).out.getLast? = some (.phaseFinished x ntt) ∧ st.rank ≤ x.rank ∧ ntt = false := by
+  have hd := SV.Proofs.Stateful.foldl_got_dominates gets {} ⟨by simp, by simp⟩
+  have hout := SV.Proofs.Stateful.foldl_got_out gets {}
+  have hne : gets ≠ [] := by intro h; rw [h] at hm; cases hm
+  have hex := SV.Proofs.Stateful.foldl_got_executed gets {} hne
+  obtain ⟨x, hx, hr⟩ := hd.2 k st (by rw [hout]; simpa using hm) hsk
+  refine ⟨x, false, ?_, hr, rfl⟩
+  unfold consume close
+  simp [hex, hx]
+
+open SV.Model.Stateful in
+/-- every way `InstrumentedStateMachine.run` can end other than a normal return, a skip or an interrupt closes its
+    suite as FAILURE or ERROR, and an internal error additionally puts a NonFatalError -/
+theorem stateful_run_end_reported (s : Suite) (h : s.ending ≠ .ok ∧ s.ending ≠ .skipTest ∧ s.ending ≠ .keyboardInterrupt ∧
+      s.ending ≠ .unsatisfiableRetry ∧ s.ending ≠ .unsatisfiableGiveUp) :
+    (endOf s).1.failing = true ∧ (s.ending = .otherException → SEv.nonFatal ∈ (endOf s).2.1) := by
+  obtain ⟨h1, h2, h3, h4, h5⟩ := h
+  unfold endOf
+  cases he : s.ending <;> simp_all [Status.failing]
 
 end SV.Props.C05
